@@ -471,6 +471,13 @@ def stream_programs(ctx, reqs, pending):
             kind = 'extract_variable' if rng.random() < 0.65 else 'extract_function'
             explicit = (not whole) or rng.random() < 0.5
             todo.append((kind, s, e if explicit else None, typ, whole))
+        # stratum: expressions inside methods that mention `self` (the bound-method path of
+        # extract_function: self parameter, `self.` call) - two per program that has a class
+        lines_ = src.splitlines()
+        with_self = [x for x in sels if x[0][0] == x[1][0] and x[0][0] <= len(lines_)
+                     and 'self' in lines_[x[0][0] - 1][x[0][1]:x[1][1]]]
+        for (s, e, typ, whole) in with_self[:2]:
+            todo.append(('extract_function', s, e, typ, whole))
         st = statement_ranges(src)
         rng.shuffle(st)
         for (s, e, nextline) in st[:ctx.size(3, 6)]:
